@@ -25,9 +25,13 @@ Proof. exact abort_surfaces. Qed.
 (* the ninth exchange, the query for a dangling pre-authorisation that opens every clean-up chain (since the fix of F11): its
    answer is an abort-class packet carrying 0xB8 by protocol design; ANY other result code aborts the query, the chain and the call
    with that code *)
-Theorem C20_pending_query_abort_surfaces : forall c ixa rest, c <> 184 ->
-  fst (h_pending ixa tt ixa (VRec (VInt c :: rest))) = Some (RErr (EAborted c)).
+Theorem C20_pending_query_abort_surfaces : forall c ixa sk rest, c <> 184 ->
+  fst (h_pending ixa sk tt ixa (VRec (VInt c :: rest))) = Some (RErr (EAborted c)).
 Proof. exact pending_query_abort_surfaces. Qed.
+
+(* ... wherever it stands in the reply script (since the fix of F17): progress reports in front of the answer are passed over *)
+Theorem C20_pending_query_skips_progress : forall ixa sk i v, i <> ixa -> In i sk -> h_pending ixa sk tt i v = (None, tt).
+Proof. exact pending_progress_is_skipped. Qed.
 
 (* a handler's verdict on an abort ends the loop: what came before cannot turn it into a success *)
 Theorem C20_abort_ends_the_loop : forall (A B : Type) (h : A -> N -> value -> option (cres B) * A) fin acc i v r res acc',
@@ -152,6 +156,7 @@ Print Assumptions C20_commit_abort_anywhere.
 Print Assumptions C20_cancel_abort_anywhere.
 Print Assumptions C20_abort_surfaces.
 Print Assumptions C20_pending_query_abort_surfaces.
+Print Assumptions C20_pending_query_skips_progress.
 Print Assumptions C20_abort_ends_the_loop.
 Print Assumptions C20_exceptions_are_known_codes.
 
